@@ -152,6 +152,21 @@ func vApplyStep(e *VEnv, in vStepIn) {
 		}
 		e.Advance(time.Second, 1)
 		e.K.handleValidatorSignature(e.Ctx, e.Pubs[vi].Address(), in.power, in.signed)
+	case 12: // confirmed double-sign evidence (inside the evidence window) against the validator arrives with a block
+		if v, ok := e.Val(vi); ok && v.Status != sdk.Unstaked {
+			// (evidence that the same BeginBlock's queued burns turn into evidence against an unstaked validator makes
+			// handleDoubleSign panic - an observation recorded in DESIGN.md, outside the statements; not driven here)
+			if info, found := e.SigningInfo(vi); found && !info.Tombstoned && len(vPrefixKeys(e, types.BurnValidatorKey)) == 0 {
+				e.K.SetPreviousProposer(e.Ctx, e.Addrs[1])
+				e.Advance(time.Second, 1)
+				req := abci.RequestBeginBlock{
+					Header: abci.Header{ProposerAddress: e.Addrs[1]},
+					ByzantineValidators: []abci.Evidence{{Type: "duplicate/vote", Validator: abci.Validator{Address: e.Pubs[vi].Address(), Power: v.ConsensusPower()},
+						Height: e.Ctx.BlockHeight() - 1, Time: e.Ctx.BlockHeader().Time.Add(-10 * time.Second)}},
+				}
+				BeginBlocker(e.Ctx, req, e.K)
+			}
+		}
 	case 11: // governance raises the minimum stake (validators below it keep their stake but cannot finish/join normally)
 		p := e.K.GetParams(e.Ctx)
 		p.StakeMinimum = 3000000
@@ -183,7 +198,7 @@ func vHistoryEnv() *VEnv {
 func vHistory(p string, steps int, symbolic bool) {
 	vHistorySymbolic = symbolic
 	vMinRaised = false
-	nOps := 12
+	nOps := 13
 	if steps > 2 {
 		nOps = 8 // longer histories over the core alphabet (no discarded branches, votes, custom burns)
 	}
@@ -423,4 +438,121 @@ func VerifC01_KeeperRestart() {
 	}
 	zz.Assert("C01.restart.same-validator-updates", same)
 	zz.Reach("C01.restart.keeper.end")
+}
+
+// VerifC01_ProcessHistoryIndependence: what a process did before must not matter: the same history executed on a
+// fresh state before and after the process has run an unrelated chain (awards to one address twice in a block, a
+// slash, a stake, blocks with fees) ends in byte-identical stores - nothing the code keeps in package-level or
+// keeper-level memory leaks from one chain into the next.
+func VerifC01_ProcessHistoryIndependence() {
+	vHistorySymbolic = false
+	mk := func() *VEnv {
+		e := vHistoryEnv()
+		e.Fund(e.Addrs[2], sdk.NewInt(7000000))
+		e.Fund(e.Addrs[0], sdk.NewInt(9000000))
+		e.Stake(0, sdk.NewInt(2000000))
+		return e
+	}
+	h1, h2 := vDrawStep("s1", 9), vDrawStep("s2", 9)
+	a := mk()
+	vApplyStep(a, h1)
+	vApplyStep(a, h2)
+	// an unrelated chain in the same process
+	j := mk()
+	j.K.AwardCoinsTo(j.Ctx, sdk.NewInt(100), j.Addrs[2])
+	j.K.AwardCoinsTo(j.Ctx, sdk.NewInt(50), j.Addrs[2])
+	j.K.SetPreviousProposer(j.Ctx, j.Addrs[1])
+	j.Advance(time.Second, 1)
+	BeginBlocker(j.Ctx, abci.RequestBeginBlock{Header: abci.Header{ProposerAddress: j.Addrs[1]}}, j.K)
+	_ = j.Slash(0, 1, sdk.NewDecWithPrec(5, 1))
+	j.K.BurnValidator(j.Ctx, j.Addrs[1], sdk.NewDecWithPrec(1, 1))
+	j.K.BurnValidator(j.Ctx, j.Addrs[1], sdk.NewDecWithPrec(2, 1))
+	j.Advance(time.Second, 1)
+	BeginBlocker(j.Ctx, abci.RequestBeginBlock{Header: abci.Header{ProposerAddress: j.Addrs[1]}}, j.K)
+	EndBlocker(j.Ctx, j.K)
+	// the same history again
+	b := mk()
+	vApplyStep(b, h1)
+	vApplyStep(b, h2)
+	zz.Assert("C01.process.same-history-same-state-whatever-ran-before", a.MS.Same(b.MS.Snapshot()))
+	zz.Reach("C01.process.end")
+}
+
+// VerifC10_ProposerAddressShapes: the proposer address of a block header need not be a 20-byte address of a known
+// validator (empty, short, long, unknown): the fees of such a block stay in the pos module account at the next
+// BeginBlock - they are not paid to the proposer of an earlier block.
+func VerifC10_ProposerAddressShapes() {
+	e := vHistoryEnv()
+	e.Fund(e.Addrs[2], sdk.NewInt(7000000))
+	shapes := [][]byte{{}, {1, 2, 3, 4}, make([]byte, 32), make([]byte, 20)}
+	odd := shapes[zz.Choice("proposer_shape", len(shapes))]
+	// block H-1 was proposed by validator 1
+	e.K.SetPreviousProposer(e.Ctx, e.Addrs[1])
+	// block H: proposed by the odd address; BeginBlock(H) pays H-1's (zero) fees and records H's proposer
+	e.Advance(time.Second, 1)
+	BeginBlocker(e.Ctx, abci.RequestBeginBlock{Header: abci.Header{ProposerAddress: odd}}, e.K)
+	fees := VSymInt("fees", 1, 1000000)
+	if err := e.AK.SendCoinsFromAccountToModule(e.Ctx, e.Addrs[2], "fee_collector", VCoins(fees)); err != nil {
+		panic(err)
+	}
+	pre := e.snap()
+	// block H+1
+	e.Advance(time.Second, 1)
+	BeginBlocker(e.Ctx, abci.RequestBeginBlock{Header: abci.Header{ProposerAddress: e.Addrs[1]}}, e.K)
+	post := e.snap()
+	zz.Assert("C10.proposer-shapes.fees-of-an-unknown-proposers-block-stay-in-the-pos-module",
+		post.posMod.Sub(pre.posMod).Equal(fees) && post.fee.IsZero() && post.bal[1].Equal(pre.bal[1]) && post.bal[0].Equal(pre.bal[0]))
+	zz.Reach("C10.proposer-shapes.end")
+}
+
+// VerifC10_AwardToAnyAddress: awards reach the address they were queued for whatever its bytes - also when it begins
+// with the byte the award / burn / prev-state keys use as their prefix.
+func VerifC10_AwardToAnyAddress() {
+	e := vHistoryEnv()
+	first := []byte{0x51, 0x52, 0x31, 0x00, 0xff}[zz.Choice("first_byte", 5)]
+	addr := sdk.Address(append([]byte{first, first}, make([]byte, 18)...))
+	amt := VSymInt("award", 1, 1<<50)
+	e.K.AwardCoinsTo(e.Ctx, amt, addr)
+	e.K.SetPreviousProposer(e.Ctx, e.Addrs[1])
+	preSupply := e.Supply()
+	e.Advance(time.Second, 1)
+	BeginBlocker(e.Ctx, abci.RequestBeginBlock{Header: abci.Header{ProposerAddress: e.Addrs[1]}}, e.K)
+	zz.Assert("C10.any-address.award-reaches-its-address", e.Bal(addr).Equal(amt) && e.Supply().Sub(preSupply).Equal(amt))
+	zz.Assert("C10.any-address.queue-emptied", len(vPrefixKeys(e, types.AwardValidatorKey)) == 0)
+	zz.Reach("C10.any-address.end")
+}
+
+// VerifC04_DirectSendBeforePoolExists: coins sent to the staked pool's address before its module account exists (no
+// stake, mint or burn has happened yet) are kept: after the first stake the pool holds the stake plus those coins.
+func VerifC04_DirectSendBeforePoolExists() {
+	e := VNewEnv(2)
+	// (funded through the pos module account, so that the staked pool's module account does not exist yet)
+	for i := 0; i < 2; i++ {
+		if err := e.AK.MintCoins(e.Ctx, types.ModuleName, VCoins(sdk.NewInt(50000000))); err != nil {
+			panic(err)
+		}
+		if err := e.AK.SendCoinsFromModuleToAccount(e.Ctx, types.ModuleName, e.Addrs[i], VCoins(sdk.NewInt(50000000))); err != nil {
+			panic(err)
+		}
+	}
+	direct := VSymInt("direct", 1, 1000000)
+	pool := e.AK.GetModuleAddress(types.StakedPoolName)
+	if err := e.AK.SendCoins(e.Ctx, e.Addrs[1], pool, VCoins(direct)); err != nil {
+		panic(err)
+	}
+	e.Direct = direct
+	stake := VSymInt("stake0", 1000000, 40000000)
+	e.Stake(0, stake)
+	zz.Assert("C04.direct-first.pool-holds-stake-plus-direct-coins", e.Pool().Equal(stake.Add(direct)))
+	e.invariants("C04.direct-first")
+	// and the stake comes back in full
+	v, _ := e.Val(0)
+	if err := e.K.BeginUnstakingValidator(e.Ctx, v); err != nil {
+		panic(err)
+	}
+	pre := e.Bal(e.Addrs[0])
+	e.Advance(e.K.UnStakingTime(e.Ctx), 1)
+	EndBlocker(e.Ctx, e.K)
+	zz.Assert("C04.direct-first.unstake-returns-the-stake", e.Bal(e.Addrs[0]).Sub(pre).Equal(stake) && e.Pool().Equal(direct))
+	zz.Reach("C04.direct-first.end")
 }
